@@ -1108,6 +1108,24 @@ func gen(w *vh.W) jcase {
 				ss = []int{0, 1}
 			}
 			add(jstep{Op: "delete", Series: ss, Lo: lo, Hi: hi})
+			if r.IntN(3) == 0 {
+				// a second delete on (usually) the other series whose range shares exactly one bound with
+				// the first: consecutive tombstones of one TSM file (batched on replay when the file is reopened)
+				lo2, hi2 := lo, hi
+				if r.IntN(2) == 0 {
+					hi2 = rt()
+				} else {
+					lo2 = rt()
+				}
+				if lo2 > hi2 && r.IntN(4) != 0 {
+					lo2, hi2 = hi2, lo2
+				}
+				s2 := 1 - ss[0]
+				if r.IntN(4) == 0 {
+					s2 = ss[0]
+				}
+				add(jstep{Op: "delete", Series: []int{s2}, Lo: lo2, Hi: hi2})
+			}
 		case x < 58:
 			switch phase {
 			case 0:
@@ -1211,6 +1229,11 @@ func corpus() []jcase {
 		{Kind: "torn", Steps: []jstep{wr(jpoint{0, 0, 1, 10}), wc(4, jpoint{0, 0, 2, 20}), {Op: "delete", Series: []int{0}, Lo: 0, Hi: 5}, img}},
 		// torn tail in a fresh segment (nothing before it), segment closed by a snapshot before the crash
 		{Kind: "torn", Steps: []jstep{wc(2, jpoint{0, 0, 1, 10}), wr(jpoint{0, 0, 2, 20}), img, {Op: "snap"}, img, wr(jpoint{0, 0, 3, 30}), img, {Op: "crash"}, img}},
+		// two acknowledged deletes on different series of ONE TSM file whose ranges share one bound (min), then
+		// restart: the tombstones are replayed in batches when the file is reopened
+		{Kind: "safe", Steps: []jstep{wr(jpoint{0, 0, 1, 10}, jpoint{0, 0, 2, 11}, jpoint{0, 0, 3, 12}), wr(jpoint{0, 0, 4, 13}, jpoint{1, 0, 1, 20}, jpoint{1, 0, 2, 21}), wr(jpoint{1, 0, 3, 22}, jpoint{1, 0, 4, 23}, jpoint{1, 1, 4, 24}),
+			{Op: "snap"}, {Op: "delete", Series: []int{0}, Lo: models.MinNanoTime, Hi: 2}, {Op: "delete", Series: []int{1}, Lo: models.MinNanoTime, Hi: 4}, img, {Op: "crash"}, img,
+			wr(jpoint{0, 0, 5, 14}, jpoint{1, 0, 5, 25}), {Op: "snap"}, {Op: "delete", Series: []int{1}, Lo: 5, Hi: 7}, {Op: "delete", Series: []int{0}, Lo: 3, Hi: 7}, img, {Op: "crash"}, img}},
 		// torn crashes in a row, a torn crash followed by a plain crash, operations after a torn-tail
 		// restart committed by a snapshot, images that live on
 		{Kind: "safe", Steps: []jstep{wr(jpoint{0, 0, 1, 10}), wc(1, jpoint{0, 0, 2, 20}), img, wc(3, jpoint{0, 0, 2, 21}), img, {Op: "crash"}, wr(jpoint{0, 0, 3, 30}), img,
